@@ -32,7 +32,7 @@ m = dict(version=1,
              dict(name="arraymc", path="vp/lab.py", kind_free_text="explicit-state search over operation histories; transition function = the real snapraid CLI on tiny arrays; oracles independent (vp/content.py, vp/parity.py, native/vpref.c)"),
              dict(name="crashmc", path="native/libvp.c", kind_free_text="enumeration of every state-changing syscall index x {kill before, after, torn} and every failing pread/pwrite via LD_PRELOAD"),
              dict(name="raidmc", path="native/raidmc.c", kind_free_text="exhaustive enumeration of table entries, generator/decoder variants x geometries x erasure sets, all square minors"),
-             dict(name="schedmc", path="native/sched.c", kind_free_text="cooperative scheduler, preemption-bounded / state-hashed exhaustive exploration of thread interleavings of the real io.c"),
+             dict(name="schedmc", path="native/vpsched.c", kind_free_text="cooperative scheduler, preemption-bounded / state-hashed exhaustive exploration of thread interleavings of the real io.c"),
              dict(name="bytemc", path="native/bytemc.c", kind_free_text="every bit flip / truncation / byte value of content files through the real loader under ASan"),
          ],
          checks=checks, not_applicable=na,
